@@ -27,6 +27,11 @@ def run(ctx):
         runs, steps = (3, 250) if q else (4, 1500)
         ctx.record_and_trace("roll-%d" % i, binp, ["record-roll1", "--seed", str(ctx.seed * 100 + 50 + i), "--runs", str(runs),
                                                    "--steps", str(steps)], "TraceRoll", runs)
+    # wide windows (9..40): the streaming machine against the definitions far beyond the model-checked window sizes
+    for i in range(1 if q else 6):
+        runs, steps = (4, 200) if q else (6, 1200)
+        ctx.record_and_trace("roll-wide-%d" % i, binp, ["record-roll1", "--wide", "--seed", str(ctx.seed * 100 + 50 + 20 + i),
+                                                        "--runs", str(runs), "--steps", str(steps)], "TraceRoll", runs)
     ctx.assumptions += BASE_ASSUMPTIONS + [
         "an omitted min_periods of the extrema/rank family is compared for len >= w only (DESIGN 5.3)",
         "arg-extrema / min / max of an all-null window with min_periods 0 are unspecified (DESIGN 5.6)",
